@@ -57,6 +57,7 @@ unsafe impl GlobalAlloc for AreaAlloc {
 #[global_allocator]
 static A: AreaAlloc = AreaAlloc;
 static PANIC_POS: AtomicUsize = AtomicUsize::new(usize::MAX);
+static PANIC_NEV: AtomicUsize = AtomicUsize::new(usize::MAX);
 
 // ------------------------------------------------------------------------------------------------
 // scenario-global state of the local stream host and of the payload instrumentation
@@ -609,7 +610,8 @@ fn scenario<T: Pay>(acts: &[&str]) -> String {
         })
     });
     // merge the area events into the log
-    let nev = NEV.load(SeqCst).min(CAP);
+    // area events recorded before the panic hook ran happened before the panic; later ones are unwinding
+    let nev = NEV.load(SeqCst).min(CAP).min(if panicked { PANIC_NEV.load(SeqCst) } else { usize::MAX });
     let evs: Vec<(usize, usize)> = (0..nev).map(|i| (EV_KIND[i].load(SeqCst), EV_POS[i].load(SeqCst))).collect();
     let mut log = host::take_log();
     if cut < log.len() { log.truncate(cut); }
@@ -618,7 +620,6 @@ fn scenario<T: Pay>(acts: &[&str]) -> String {
     let mut live_areas: i64 = 0;
     for pos in 0..=log.len() {
         while ei < evs.len() && evs[ei].1 <= pos {
-            if panicked && evs[ei].1 >= log.len() { break; }
             if evs[ei].0 == 1 { out.push("a+".into()); live_areas += 1 } else { out.push("a-".into()); live_areas -= 1 }
             ei += 1;
         }
@@ -647,6 +648,7 @@ fn main() {
             let quiet_hook = std::env::var_os("RTMOCK_DEBUG").is_none();
             std::panic::set_hook(Box::new(move |info| {
                 PANIC_POS.store(rtmock::alloc::LOGLEN.load(SeqCst), SeqCst);
+                PANIC_NEV.store(NEV.load(SeqCst), SeqCst);
                 if !quiet_hook { eprintln!("{info}"); }
             }));
         }
@@ -662,6 +664,7 @@ fn main() {
         KIND.with(|k| k.set(kind));
         NEV.store(0, SeqCst);
         PANIC_POS.store(usize::MAX, SeqCst);
+        PANIC_NEV.store(usize::MAX, SeqCst);
         match kind {
             b'c' => scenario::<u8>(&toks[1..]),
             b'l' => scenario::<L>(&toks[1..]),
